@@ -286,7 +286,8 @@ func (m *Model) DeleteMode(id string, opts ...resource.WriteOption) error {
 
 func (m *Model) deleteMode(id string, opts ...resource.WriteOption) error {
 	active := m.activeMode.Get().(*traits.ElectricMode)
-	if id == active.Id {
+	if active.Id != "" && id == active.Id {
+		// a blank active mode id means the active mode was never set, it does not refer to the mode with id ""
 		return ErrDeleteActiveMode
 	}
 
